@@ -5,7 +5,7 @@ import re
 
 from . import common as C
 
-WORDS = ["a", "b", "c", "x", "yy", "z1", "k-k", "w.w"]
+WORDS = ["a", "b", "c", "x", "yy", "z1", "k-k", "w.w", "a b", "b c", " "]
 
 
 def lit(s):
@@ -340,6 +340,9 @@ def parse_events(stderr, entries):
         if line.startswith("\x02PROMPT "):
             evs.append(["prompt", int(line.split()[1])])
             continue
+        if line.startswith("===> Running recipe `r"):
+            evs.append(["body", int(line.split("`r")[1].split("`")[0])])
+            continue
         if line.startswith("===> "):
             continue
         if line.startswith("error: "):
@@ -351,9 +354,14 @@ def parse_events(stderr, entries):
     return evs
 
 
-def canon_model_events(evs):
+def canon_model_events(evs, loquacious=False):
     out = []
     for e in evs:
+        if "body" in e:
+            # ghost label, observable only as the "===> Running recipe" line of --verbose
+            if loquacious:
+                out.append(["body", e["body"]["recipe"]])
+            continue
         if "bt" in e:
             out.append(["bt", e["bt"]["cmd"]])
         elif "echo" in e:
@@ -389,8 +397,13 @@ def run_cases(cases, driver=None, extra_settings=""):
     for m, r in zip(resp, impl):
         if "fatal" in m:
             raise C.BuildError("model driver: " + m["fatal"])
-        out.append(({"events": canon_model_events(m["events"]), "exit": m["exit"]}, r))
+        loq = c_loq(cases[len(out)])
+        out.append(({"events": canon_model_events(m["events"], loq), "exit": m["exit"], "raw": m["events"]}, r))
     return out
+
+
+def c_loq(c):
+    return bool(c["cfg"].get("verbose")) and not c["cfg"].get("quiet")
 
 
 def describe_case(c):
@@ -452,3 +465,85 @@ def shrink_case(c, still_fails, budget=60):
             if cur["cfg"].get(flag):
                 changed |= attempt(lambda x, flag=flag: x["cfg"].__setitem__(flag, False))
     return cur
+
+
+# ---------------------------------------------------------------------------------------------
+# independent reference of the documented run order (all commands succeed, every prompt confirmed)
+
+
+def spec_run(prog, cfg, invs, outs):
+    """README semantics written directly: priors first (shared memo keyed by recipe+arguments), body,
+    subsequents with a fresh memo, command line left to right.  Returns the canonical event list."""
+    trace = []
+    outmap = list(outs)
+    loq = bool(cfg.get("verbose")) and not cfg.get("quiet")
+
+    def bt_out(cmd):
+        for k, o in outmap:
+            if k in cmd:
+                return o
+        return ""
+
+    def ev(e, ps):
+        if "lit" in e:
+            return e["lit"]["s"]
+        if "param" in e:
+            return ps[e["param"]["i"]]
+        if "bt" in e:
+            if cfg.get("dryRun"):
+                return "`" + e["bt"]["cmd"] + "`"
+            trace.append(["bt", e["bt"]["cmd"]])
+            return bt_out(e["bt"]["cmd"])
+        return ev(e["cat"]["a"], ps) + ev(e["cat"]["b"], ps)
+
+    def echoes(rc, l):
+        if cfg.get("dryRun") or loq:
+            return True
+        if cfg.get("quiet"):
+            return False
+        if cfg.get("setQuiet") and not rc["noQuiet"]:
+            return False
+        return l["quiet"] == rc["quiet"]
+
+    def run(ri, given, ran):
+        key = (ri, tuple(given))
+        if key in ran:
+            return
+        rc = prog["recipes"][ri]
+        if rc["confirm"] and not cfg.get("yes"):
+            trace.append(["prompt", ri])
+        ps = list(given)
+        for i in range(len(given), len(rc["params"])):
+            ps.append(ev(rc["params"][i], ps))
+        if not cfg.get("noDeps"):
+            for d in rc["priors"]:
+                run(d["target"], [ev(a, ps) for a in d["args"]], ran)
+        if loq:
+            trace.append(["body", ri])
+        if rc["script"]:
+            lines = ["".join(ev(f, ps) for f in l["frags"]) for l in rc["body"]]
+            if not cfg.get("quiet") and (cfg.get("dryRun") or rc["quiet"]):
+                trace.extend(["echo", x] for x in lines)
+            if not cfg.get("dryRun"):
+                trace.append(["script", [x for x in lines if x != ""]])
+        else:
+            for l in rc["body"]:
+                cmd = "".join(ev(f, ps) for f in l["frags"])
+                if cmd == "":
+                    continue
+                if echoes(rc, l):
+                    trace.append(["echo", cmd])
+                if not cfg.get("dryRun"):
+                    trace.append(["spawn", cmd])
+        if not cfg.get("noDeps"):
+            ran2 = set()
+            for d in rc["subs"]:
+                run(d["target"], [ev(a, ps) for a in d["args"]], ran2)
+        ran.add(key)
+
+    for c in prog["assigns"]:
+        ev(bt(c), [])
+    ran = set()
+    for ri, given in invs:
+        run(ri, given, ran)
+    return trace
